@@ -79,14 +79,19 @@ Proof.
   destruct (bank_call w1 (fun b => bank_send b PM PM [half])) as [[w2|e2] fl] eqn:Eb; [|eauto].
   assert (Hsame : same_contracts w1 w2) by (eapply bank_call_same; eauto).
   destruct Hsame as (_ & _ & _ & _ & _ & Hpm & _).
-  unfold handle. cbn [String.eqb EM FC PM FM Ascii.eqb Bool.eqb]. cbn [pm_execute].
+  destruct (handle_err_of_typed w2 PM PM [half] (WPm (PmSwap ask None ss recv pid))) as [e He]; [|rewrite He; eauto].
+  unfold handle_typed. cbn [String.eqb EM FC PM FM Ascii.eqb Bool.eqb]. cbn [pm_execute].
   destruct (swap_disabled w2 PM [half] ask None ss recv pid p) as [e He]; [rewrite Hpm; exact Hp | exact Hs|].
   rewrite He. cbn [bind]. eauto.
 Qed.
 
-Lemma handle_pm w sender funds m : handle w PM sender funds (WPm m) =
+Lemma handle_pm w sender funds m : handle_typed w PM sender funds (WPm m) =
   let* (s, subs) := pm_execute w sender funds m in Ok (set_pm w s, subs).
 Proof. reflexivity. Qed.
+
+Lemma handle_pm_ok w sender funds m r : handle w PM sender funds (WPm m) = Ok r ->
+  (let* (s, subs) := pm_execute w sender funds m in Ok (set_pm w s, subs)) = Ok r.
+Proof. intros H. apply handle_ok_typed in H. destruct H as [H _]. rewrite handle_pm in H. exact H. Qed.
 
 Lemma tx_rejected_step w sender target m funds :
   (exists e, run_tx w sender target m funds = Err e) -> snd (step w (Tx sender target m funds)) = false.
@@ -98,7 +103,7 @@ Lemma tx_swap_disabled w sender funds ask bp ms r pid p :
   snd (step w (Tx sender PM (WPm (PmSwap ask bp ms r pid)) funds)) = false.
 Proof.
   intros Hp Hs. apply tx_rejected_step. apply run_tx_handler_err. intros w1 (_ & _ & _ & _ & _ & Hpm & _).
-  rewrite handle_pm. cbn [pm_execute].
+  apply handle_err_of_typed. rewrite handle_pm. cbn [pm_execute].
   destruct (swap_disabled w1 sender funds ask bp ms r pid p) as [e He]; [rewrite Hpm; exact Hp | exact Hs|].
   rewrite He. cbn. eauto.
 Qed.
@@ -109,7 +114,7 @@ Lemma tx_route_disabled w sender funds ops mr r ms o p :
   snd (step w (Tx sender PM (WPm (PmRoute ops mr r ms)) funds)) = false.
 Proof.
   intros Hin Hp Hs. apply tx_rejected_step. apply run_tx_handler_err. intros w1 (_ & _ & _ & _ & _ & Hpm & _).
-  rewrite handle_pm. cbn [pm_execute].
+  apply handle_err_of_typed. rewrite handle_pm. cbn [pm_execute].
   destruct (route_disabled w1 sender funds ops mr r ms o p Hin) as [e He]; [rewrite Hpm; exact Hp | exact Hs|].
   rewrite He. cbn. eauto.
 Qed.
@@ -120,7 +125,7 @@ Lemma tx_provide_disabled w sender funds ls ss r pid u l p :
   snd (step w (Tx sender PM (WPm (PmProvide ls ss r pid u l)) funds)) = false.
 Proof.
   intros Hp Hs. apply tx_rejected_step. apply run_tx_handler_err. intros w1 (_ & _ & _ & _ & _ & Hpm & _).
-  rewrite handle_pm. cbn [pm_execute].
+  apply handle_err_of_typed. rewrite handle_pm. cbn [pm_execute].
   destruct (provide_disabled w1 sender funds ls ss r pid u l p) as [e He]; [rewrite Hpm; exact Hp | exact Hs|].
   rewrite He. cbn. eauto.
 Qed.
@@ -130,7 +135,7 @@ Lemma tx_withdraw_disabled w sender funds pid p :
   snd (step w (Tx sender PM (WPm (PmWithdraw pid)) funds)) = false.
 Proof.
   intros Hp Hs. apply tx_rejected_step. apply run_tx_handler_err. intros w1 (_ & _ & _ & _ & _ & Hpm & _).
-  rewrite handle_pm. cbn [pm_execute].
+  apply handle_err_of_typed. rewrite handle_pm. cbn [pm_execute].
   destruct (withdraw_disabled w1 sender funds pid p) as [e He]; [rewrite Hpm; exact Hp | exact Hs|].
   rewrite He. cbn. eauto.
 Qed.
@@ -164,8 +169,10 @@ Proof.
   assert (Hsame : same_contracts w w1).
   { destruct funds; [inversion Eb; subst; apply same_contracts_refl | eapply bank_call_same; eauto]. }
   destruct Hsame as (_ & _ & _ & _ & _ & Hpm & _).
-  rewrite handle_pm. cbn [pm_execute].
-  destruct (provide_liquidity w1 sender funds ls ss r pid u l) as [[s1 subs]|e] eqn:Ep; cbn [bind fst]; [|eauto].
+  destruct (handle w1 PM sender funds (WPm (PmProvide ls ss r pid u l))) as [[w2 subs0]|e0] eqn:Eh; cbn [fst]; [|eauto].
+  apply handle_pm_ok in Eh. cbn [pm_execute] in Eh.
+  destruct (provide_liquidity w1 sender funds ls ss r pid u l) as [[s1 subs]|e] eqn:Ep; cbn [bind] in Eh; [|discriminate].
+  inversion Eh; subst w2 subs0; clear Eh.
   destruct (provide_single_shape _ _ _ _ _ _ _ _ _ _ _ _ Ha Ep) as (b & ask & half & -> & ->).
   rewrite process_cons.
   destruct (single_sided_swap_disabled_sub 6 (set_pm w1 (pm_with_buffer (w_pm w1) (Some b))) None pid ask ss half p) as (e & fl2 & He).
